@@ -22,7 +22,7 @@ RULE = ("constructive random grammars (<=5 non-terminals, <=4 alternatives - 6-7
         "S -> ITEM S | empty with one alternative per producible token name; leaves compared with an independent tokenizer. "
         "Non-trivial = a returned tree for a grammar that has a common-prefix group or a parse-table conflict; distinct by "
         "(grammar, names, tokens, setting)."
-        " Also: parsers built as objects of a user's LLParser subclass after same-named sibling classes used other grammars.")
+        " Also: parsers built as objects of a user's LLParser subclass after same-named sibling classes used other grammars. Part shared_heads: one symbol with 4-7 alternatives 'k SUB tail' whose SUBs are non-terminals of 1, 2 and 3 tokens, same-head alternatives not adjacent (two groups separated by an alternative that starts differently, or any order), so that several switches between alternatives happen on one stack entry.")
 ASSUMPTIONS = [
     "ParsingError is always an acceptable outcome here (acceptance is judged by C02)",
     "exceptions from the constructor mean 'grammar not accepted' and are only counted (exactness of GrammarIsRecursive is C03)",
@@ -289,9 +289,50 @@ def st_inputs(draw, G, g, n_inputs, max_tokens=12, multiline=True):
 
 
 @st.composite
-def st_case(draw, max_tokens=12):
+def st_shared_head_grammar(draw):
+    """one symbol with 4-7 alternatives `k SUB tail` whose SUBs are non-terminals of different token lengths (w | w w | w w w),
+    in any order and mixed with alternatives that start differently: alternatives with the same head are not adjacent, several
+    of them meet in one parse-table cell and the parser has to switch between them more than once on one stack entry"""
+    ts = draw(st.permutations([k for k in gk.TERMINAL_KINDS if not k.startswith("KW_")]))
+    k, w, z = ts[0], ts[1], ts[2]
+    tails = list(ts[3:3 + draw(st.integers(2, 4))])
+    subs = {"N2": [[w, w]], "N3": [[w]], "N4": [[w, w, w]]}
+    if draw(st.booleans()):
+        subs["N4"] = [[w, "N3"]]
+    use = ["N2", "N3"] + (["N4"] if draw(st.booleans()) else [])
+    alts = []
+    if draw(st.booleans()):
+        # two groups of 'k SUB tail' alternatives separated by an alternative that starts differently; the second group takes up
+        # SUBs of the first one with other tails, in another order
+        t1, t2 = tails[:len(tails) // 2], tails[len(tails) // 2:]
+        for grp_tails in (t1, t2):
+            for sub in draw(st.permutations(use))[:draw(st.integers(2, len(use)))]:
+                alts.append([k, sub, draw(st.sampled_from(grp_tails))])
+            if grp_tails is t1:
+                alts.append(["N5", draw(st.sampled_from(tails))])
+    else:
+        for _ in range(draw(st.integers(4, 7))):
+            if draw(st.integers(0, 4)) == 0:
+                a = ["N5", draw(st.sampled_from(tails))]
+            else:
+                a = [k, draw(st.sampled_from(use)), draw(st.sampled_from(tails))]
+            if a not in alts:
+                alts.append(a)
+    prods = {"N0": [["N1", z]] if draw(st.booleans()) else [["N1"]], "N1": alts}
+    for n in use:
+        prods[n] = subs[n]
+    if any(a[0] == "N5" for a in alts):
+        prods["N5"] = [[z]] if draw(st.booleans()) else [[k, z]]
+    order = draw(st.permutations(sorted(prods)))
+    prods = {n: prods[n] for n in order}
+    terms = sorted({x for al in prods.values() for a in al for x in a if x not in prods})
+    return {"prods": prods, "start": "N0", "terms": terms}
+
+
+@st.composite
+def st_case(draw, max_tokens=12, shared_head=False):
     kw = draw(st.booleans())
-    g = draw(gk.st_grammar())
+    g = draw(st_shared_head_grammar() if shared_head else gk.st_grammar())
     if not kw:
         # without the keywords table 'if' is an ordinary WORD: replace keyword kinds by other kinds
         repl = [k for k in gk.TERMINAL_KINDS if not k.startswith("KW_") and k not in g["terms"]]
@@ -421,9 +462,13 @@ def parts(tier):
     ts = Part("token_stream", eval_token_stream, strategy=st_token_stream_case, examples=4000 if tier == "quick" else 120000,
               note="leaves vs an independent reference tokenizer; keyword source types with overlapping lexemes, synonyms")
     if tier == "quick":
-        return [Part("grammars", evaluate, strategy=st_case, examples=5000), ts]
+        return [Part("grammars", evaluate, strategy=st_case, examples=5000), ts,
+                Part("shared_heads", evaluate, strategy=lambda: st_case(shared_head=True), examples=800,
+                     note="4-7 non-adjacent alternatives 'k SUB tail' with SUBs of different token lengths")]
     return [Part("grammars", evaluate, strategy=st_case, examples=120000),
-            Part("grammars_long_inputs", evaluate, strategy=lambda: st_case(max_tokens=16), examples=40000), ts]
+            Part("grammars_long_inputs", evaluate, strategy=lambda: st_case(max_tokens=16), examples=40000), ts,
+            Part("shared_heads", evaluate, strategy=lambda: st_case(shared_head=True), examples=20000,
+                 note="4-7 non-adjacent alternatives 'k SUB tail' with SUBs of different token lengths")]
 
 
 TECHNIQUE = "property-based testing (Hypothesis): constructive grammar generator + sentence sampler + layout renderer; every returned tree judged by a derivation-validity predicate against the user grammar and the rendered token list"
